@@ -68,3 +68,55 @@ Theorem wipe_guard :
      (cn * N.of_nat (nfiles r) <= N.of_nat (List.length (files_q r)) * cd)%N -> clean_tree r sr (cn, cd) t = t).
 Proof. split; [exact wipe_guard_size|exact wipe_guard_count]. Qed.
 Print Assumptions wipe_guard.
+
+(* COMPLETENESS: "it removes every other regular file and every directory left
+   without kept content".  [walk keep rel t p t']: the node t' at path p is
+   reached from the scan root by descending through directories that are not
+   kept (kept directories are left alone as a whole, symbolic links are never
+   entered).  Every reachable regular file that is not kept is queued ... *)
+Theorem scan_complete_files :
+  forall keep t p sz,
+  walk keep [] t p (File sz) -> in_keep keep p = false ->
+  In p (files_q (scan keep true [] t)).
+Proof. intros keep t p sz Hw Hk. exact (files_q_complete keep [] t p sz Hw Hk true). Qed.
+Print Assumptions scan_complete_files.
+
+(* ... every reachable directory below the root in which nothing is needed is
+   queued ... *)
+Theorem scan_complete_dirs :
+  forall keep t p cs,
+  walk keep [] t p (Dir cs) -> in_keep keep p = false -> p <> [] ->
+  needed (scan keep false p (Dir cs)) = false ->
+  In p (dirs_q (scan keep true [] t)).
+Proof.
+  intros keep t p cs Hw Hk Hne Hn. exact (dirs_q_complete keep [] t p cs Hw Hk Hn true (fun _ => Hne)).
+Qed.
+Print Assumptions scan_complete_dirs.
+
+(* ... and a reachable symbolic link or kept entry makes everything above it needed
+   (so, by [clean_safe_dirs], none of its ancestors is queued) *)
+Theorem reachable_link_or_kept_protects :
+  forall keep rel t p t',
+  walk keep rel t p t' -> (t' = Sym \/ in_keep keep p = true) ->
+  forall is_root, needed (scan keep is_root rel t) = true.
+Proof.
+  intros keep rel t p t' Hw [->|Hk] is_root;
+    [exact (reachable_symlink_needed keep rel t p Hw is_root)
+    |exact (reachable_kept_needed keep rel t p t' Hw Hk is_root)].
+Qed.
+Print Assumptions reachable_link_or_kept_protects.
+
+(* non-vacuity: a stale file two levels down, next to a kept one *)
+Example scan_complete_example :
+  let t := Dir [("pool", Dir [("a", Dir [("stale.deb", File 3); ("kept.deb", File 4)]); ("empty", Dir [])])] in
+  let keep := [["pool"; "a"; "kept.deb"]] in
+  walk keep [] t ["pool"; "a"; "stale.deb"] (File 3) /\
+  scan keep true [] t =
+    {| needed := true; files_q := [["pool"; "a"; "stale.deb"]]; dirs_q := [["pool"; "empty"]];
+       bytes_total := 7; bytes_cleaned := 3; nfiles := 2 |}.
+Proof.
+  split; [|vm_compute; reflexivity].
+  eapply W_down; [reflexivity|left; reflexivity|].
+  eapply W_down; [reflexivity|left; reflexivity|].
+  eapply W_down; [reflexivity|left; reflexivity|]. apply W_here.
+Qed.
